@@ -29,6 +29,8 @@
  *   MSG <type> <pid> <tid>   feed one uftrace_msg(+uftrace_msg_task) through read_record_mmap -> "OK"
  *   SIGCHLD <pid>     call sigchld_handler with si_pid  -> "OK"
  *   CHECK             check_tid_list()                  -> "CHECK <ret> <child_exited> <finish_received> <pid>:<tid>:<exited> ..."
+ *   DROP <m>          drop_pending_forks() on a pipe that is  m=0: empty, writer open;  m=1: empty, no writer;
+ *                     m=2: not empty, no writer             -> "DROP <ret> <pid>:<tid>:<exited> ..."
  */
 #define _GNU_SOURCE
 #define main uftrace_main
@@ -324,14 +326,18 @@ static int mode_kill(int argc, char **argv)
 static int mode_live(char *dir)
 {
 	char line[256];
-	int pfds[2];
+	int pfds[2], hup[2], hupdata[2];
 	pid_t kids[256];
 	int nkids = 0, i;
 
 	logfp = stderr;
 	outfp = stdout;
-	if (pipe(pfds) < 0)
+	if (pipe(pfds) < 0 || pipe(hup) < 0 || pipe(hupdata) < 0)
 		return 2;
+	close(hup[1]); /* empty, no writer: POLLHUP */
+	if (write(hupdata[1], "x", 1) != 1)
+		return 2;
+	close(hupdata[1]); /* data pending, no writer: POLLIN | POLLHUP */
 	g_opts.dirname = dir;
 	setvbuf(stdout, NULL, _IOLBF, 0);
 	signal(SIGCHLD, SIG_DFL);
@@ -345,6 +351,8 @@ static int mode_live(char *dir)
 				prctl(PR_SET_PDEATHSIG, SIGKILL);
 				close(pfds[0]);
 				close(pfds[1]);
+				close(hup[0]);
+				close(hupdata[0]);
 				for (;;)
 					pause();
 			}
@@ -390,6 +398,14 @@ static int mode_live(char *dir)
 			struct tid_list *tl;
 			bool r = check_tid_list();
 			printf("CHECK %d %d %d", (int)r, (int)child_exited, (int)finish_received);
+			list_for_each_entry(tl, &tid_list_head, list)
+				printf(" %d:%d:%d", tl->pid, tl->tid, (int)tl->exited);
+			printf("\n");
+		}
+		else if (!strcmp(cmd, "DROP")) {
+			struct tid_list *tl;
+			bool r = drop_pending_forks(a == 1 ? hup[0] : a == 2 ? hupdata[0] : pfds[0]);
+			printf("DROP %d", (int)r);
 			list_for_each_entry(tl, &tid_list_head, list)
 				printf(" %d:%d:%d", tl->pid, tl->tid, (int)tl->exited);
 			printf("\n");
